@@ -574,3 +574,122 @@ def run(ctx, writers5, writers3):
                 ctx.ob(not d, '%s (MQTT %s): property section `%s` = %s%s' % (var, ver, n, fmt_poly(lp)[:300], '' if not d else ' — DIFFERS from the property steps by ' + fmt_poly(d)[:300]),
                        'bytes|%s|%s|section|%s' % (ver, var, n), loc=lfv.loc())
     ctx.floor(ncmp, 20, 'byte-accounting comparisons')
+
+# ---------------------------------------------------------------------------------------------
+# short forms (added after the mutation sweep): MQTT 5 acknowledgements, DISCONNECT and AUTH may omit the reason code / property
+# length.  The length function and the writer decide this separately; a tiny path-sensitive walk over the two boolean atoms
+# (default reason code? empty property section?) evaluates both on all four assignments and compares bytes.
+_STEP_BYTES = {'Uint8': 1, 'Uint16': 2, 'Uint32': 4}
+
+
+def _walk(view, truth, on_block=None, limit=400):
+    """Follow the CFG from the entry choosing, at every switch, the edge whose atom `truth(atom_string)` says is true
+    (None = undecided -> stop).  Returns ('ret', bb) | ('undecided', atom) | ('loop', bb)."""
+    from ..mir import show_atom
+    succ, _, edge = view.graph()
+    node, seen = 0, set()
+    for _ in range(limit):
+        if node in seen:
+            return ('loop', node)
+        seen.add(node)
+        if node < view.n:
+            if on_block:
+                on_block(node)
+            if node in view.exits():
+                return ('ret', node)
+        nx = succ.get(node, [])
+        if not nx:
+            return ('ret', node)
+        if len(nx) == 1:
+            node = nx[0]
+            continue
+        pick, und = None, None
+        for en in nx:
+            if en not in edge:
+                continue
+            a = show_atom(view.edge_atom(en))
+            t = truth(a)
+            if t is True:
+                pick = en
+                break
+            if t is None:
+                und = a
+        if pick is None:
+            return ('undecided', und)
+        node = pick
+    return ('loop', node)
+
+
+def _mk_truth(vals):
+    """vals: list of (regex over the positive atom, bool).  Handles a leading `!`; library/log atoms get a fixed answer."""
+    def truth(a):
+        neg = a.startswith('!')
+        body = a[1:] if neg else a
+        for rx, val in vals:
+            if re.search(rx, body):
+                return (not val) if neg else val
+        if re.search(r'STATIC_MAX_LEVEL|log::max_level', body):
+            return (body.startswith('(Level::')) != neg      # logging enabled: no effect on steps
+        if body.endswith(' is Continue'):
+            return not neg
+        if body.endswith(' is Break'):
+            return neg
+        return None
+    return truth
+
+
+def run_short_forms(ctx, writers5):
+    ctx.rule('R-C02-13', 'T10 sibling agreement (path-sensitive walk over two atoms)', 'short forms of MQTT 5 PUBACK/PUBREC/PUBREL/PUBCOMP, DISCONNECT and AUTH: for each of the four combinations of "default reason code" and "empty property section" the length function returns the specification\'s remaining length and the writer pushes exactly that many bytes after the length field (3.4.2.1: the reason code may be omitted only when it is Success *and* there are no properties)')
+    SPEC = {'ack': {(True, True): 2, (False, True): 3}, 'Disconnect': {(True, True): 0, (False, True): 1}, 'Auth': {(True, True): 0}}
+    n = 0
+    for var, w in sorted(writers5.items()):
+        kind = 'ack' if var in ('Puback', 'Pubrec', 'Pubrel', 'Pubcomp') else var if var in ('Disconnect', 'Auth') else None
+        if kind is None:
+            continue
+        lfc = [c for c in w.calls() if c.term.get('local') and re.search(r'compute_\w*length\w*$', c.nfn)]
+        if not ctx.ob(len(lfc) == 1, '%s writer calls its length function once' % var, 'shortform|%s|lf' % var, loc=w.loc()):
+            continue
+        lf = ctx.fn(norm(lfc[0].fn))
+        rets = {b: e for b, e in prims.ret_variants(lf)}
+        for rc in (True, False):
+            for s0 in (True, False):
+                n += 1
+                tl = _mk_truth([(r'^\(packet\.reason_code == \w+::\w+\{\}\)$', rc), (r'^\(\w*property_section_length == 0\)$', s0)])
+                lval = None
+                rows = []
+                for b, e in rets.items():
+                    if not (e[0] == 'agg' and e[2] == 'Ok'):
+                        continue
+                    ts = [tl(g) for g in prims.guard_strs_plain(lf, b)]
+                    if any(t is False for t in ts):
+                        continue
+                    rows.append((sum(1 for t in ts if t is True), e))
+                # the most specific compatible return (an `if a && b { return .. }` leaves the fall-through return unguarded)
+                best = max((k for k, e in rows), default=0)
+                rows = [e for k, e in rows if k == best]
+                if len(rows) == 1:
+                    tup = dict(rows[0][3]).get('0')
+                    first = dict(tup[3]).get('0') if tup and tup[0] == 'agg' else None
+                    lval = int(show(first)) if first is not None and re.match(r'^\d+$', show(first)) else 'general'
+                want = SPEC[kind].get((rc, s0), 'general')
+                ctx.ob(lval == want, '%s length function, default reason code=%s, no properties=%s: remaining length %s (specification: %s)' % (var, rc, s0, lval, want),
+                       'shortform|%s|length|rc=%s|empty=%s' % (var, rc, s0), loc=lf.loc())
+                # the writer under the same assignment; its view of the two lengths is what the length function returned
+                pushed = []
+
+                def onb(b_, w=w, pushed=pushed):
+                    for c in w.calls('VecDeque::push_back', 'push_back'):
+                        if c.bb == b_:
+                            e = c.arg(1)
+                            pushed.append(e[2] if e[0] == 'agg' else '?')
+                tw = _mk_truth([(r'^\(packet\.reason_code == \w+::\w+\{\}\)$', rc), (r'@Continue\.0\.1 == 0\)$', s0), (r'@Continue\.0\.0 == 0\)$', lval == 0),
+                                (r'^\(\d+ == .*@Continue\.0\.0\)$', True)])
+                rw = _walk(w, tw, on_block=onb)
+                if rw[0] == 'ret' and all(p_ in _STEP_BYTES or p_ == 'Vli' for p_ in pushed) and pushed[:2] == ['Uint8', 'Vli'] and 'Vli' not in pushed[2:]:
+                    wval = sum(_STEP_BYTES[p_] for p_ in pushed[2:])
+                else:
+                    wval = 'general'
+                ctx.ob(wval == lval, '%s writer, default reason code=%s, no properties=%s: %s byte(s) after the length field (steps %s); the length function says %s' % (var, rc, s0, wval, pushed[2:6], lval),
+                       'shortform|%s|writer|rc=%s|empty=%s' % (var, rc, s0), loc=w.loc())
+    if ctx.config == 'all':
+        ctx.floor(n, 24, 'short-form assignments evaluated')
